@@ -31,7 +31,19 @@ def extra(ctx):
         return dict(race_run="timed out", race_reports=0)
     lines = [l for l in p.stdout.split("\n") if l.strip()]
     reports = p.stderr.count("WARNING: DATA RACE")
-    out = dict(race_detector_cases=len(lines), race_reports=reports, race_goroutines_per_case=16, race_exit_code=p.returncode)
+    out = dict(race_detector_cases=len(lines), race_reports=reports, race_goroutines_per_case=16, race_exit_code=p.returncode,
+               race_first_use_concurrent=True)
+    # machinery note: the API surface of the tree under test (go/parser scan made by the harness)
+    try:
+        env2 = dict(ctx["env"]); env2["C20_LIST_API"] = "1"
+        q = subprocess.run([ctx["harness"], "gen", "C20", "quick", "1"], env=env2, capture_output=True, text=True, timeout=120)
+        m = re.search(r"api surface: (\d+) uncovered: (\d+)", q.stderr)
+        if m:
+            out["api_surface_functions"] = int(m.group(1))
+            out["api_uncovered"] = [l.split()[1] for l in q.stderr.split("\n") if l.startswith("UNCOVERED")]
+            out["api_not_called"] = {"graphout.Dot.Print": "writes to os.Stdout (the harness's result channel); = Fprint(os.Stdout, g)"}
+    except Exception as e:                                   # a note only
+        out["api_surface_note_error"] = str(e)
     if reports or p.returncode == 66:
         first = p.stderr[p.stderr.find("WARNING: DATA RACE"):][:6000]
         # the call names involved (from the stack frames of the report)
